@@ -8,6 +8,7 @@
    later) that exits by itself at e (None: blocks) and i after the interrupt (None: ignores it). *)
 From Coq Require Import List Bool ZArith.
 From Coq.Strings Require Import Byte.
+From GI Require Import TsBatch.TsBatch TsBatch.TsBatchFacts TsDeadline.TsLate TsDeadline.TsLateFacts.
 From GI Require Import Lib.Bytes Gen.TsBatchConsts TsDeadline.TsDeadline TsDeadline.TsDeadlineFacts
   TsDeadline.TsTimed TsDeadline.TsTimedFacts TsDeadline.TsTimedBounds TsDeadline.TsRuns TsDeadline.TsRunsFacts.
 Import ListNotations.
@@ -292,3 +293,73 @@ Theorem C17_success_on_interrupt_refuted :
     fg_exec_gen interrupt_error_wins (fg_params now eps D None (Some i)) o true false = Some (XTimedOut timed_out_message).
 Proof. exact success_on_interrupt_refuted. Qed.
 Print Assumptions C17_success_on_interrupt_refuted.
+
+(* ---- scripts that start long after the RunT call (TsLate.v) *)
+
+(* The context of a script is the one RunT created before it started any subtest (generated
+   constant): when it expires does not depend on when the script starts. *)
+Theorem C17_script_context_is_runts : forall now eps D t0,
+  script_ctx_deadline now eps D t0 = ctx_deadline now eps D.
+Proof. exact script_ctx_is_runts. Qed.
+Print Assumptions C17_script_context_is_runts.
+
+(* Hence a foreground command that is started before the context expires - however late its script
+   got going: sequential T, -parallel 1, a slow script in front - is for waitOrStop exactly the command
+   of the theorems above ... *)
+Theorem C17_late_script_same_command : forall now eps D t0 e i,
+  t0 <= ctx_deadline now eps D -> fg_params_at now eps D t0 e i = fg_params now eps D e i.
+Proof. exact late_script_same_params. Qed.
+Print Assumptions C17_late_script_same_command.
+
+(* ... in particular it is interrupted two grace periods before the deadline of the RunT call. *)
+Theorem C17_late_script_interrupt_time : forall sigma now eps D t0 i o,
+  bounded sigma o -> t0 <= ctx_deadline now eps D ->
+  exists ti, t_int (wos (fg_params_at now eps D t0 None i) o) = Some ti /\ int_ok (wos (fg_params_at now eps D t0 None i) o) = true /\
+             D + eps - grace_reserve * grace (D - now) <= ti <= D + eps - grace_reserve * grace (D - now) + 2 * sigma.
+Proof. exact late_script_interrupt_time. Qed.
+Print Assumptions C17_late_script_interrupt_time.
+
+(* A command started after the context has expired is interrupted as soon as it runs, and killed one
+   grace period after that if it ignores the interrupt. *)
+Theorem C17_started_after_expiry : forall sigma now eps D t0 i o,
+  bounded sigma o -> ctx_deadline now eps D <= t0 ->
+  exists ti, t_int (wos (fg_params_at now eps D t0 None i) o) = Some ti /\ int_ok (wos (fg_params_at now eps D t0 None i) o) = true /\
+             t0 <= ti <= t0 + 2 * sigma.
+Proof. exact started_after_expiry. Qed.
+Print Assumptions C17_started_after_expiry.
+
+Theorem C17_started_after_expiry_kill : forall sigma now eps D t0 o,
+  bounded sigma o -> ctx_deadline now eps D <= t0 ->
+  exists tk, t_kill (wos (fg_params_at now eps D t0 None None) o) = Some tk /\
+             t0 + grace (D - now) <= tk <= t0 + grace (D - now) + 5 * sigma.
+Proof. exact started_after_expiry_kill. Qed.
+Print Assumptions C17_started_after_expiry_kill.
+
+(* With one context per subtest, counted from the start of the subtest, it is false: a script that
+   starts late and blocks is interrupted after the deadline. *)
+Theorem C17_context_per_subtest_refuted :
+  exists now eps D t0 o,
+    now <= t0 /\ t0 <= ctx_deadline now eps D /\ bounded 0 o /\
+    exists ti, t_int (wos (fg_params_at_gen false now eps D t0 None None) o) = Some ti /\ D < ti.
+Proof. exact context_per_subtest_refuted. Qed.
+Print Assumptions C17_context_per_subtest_refuted.
+
+(* ---- the life of the shared context (the batch model of TsBatch.v) *)
+
+(* Outside the subtests RunT cancels the context only when there is no script at all (generated
+   constant).  Then, whatever the retention settings (TestWork, -testwork, WorkdirRoot) and under every
+   interleaving, the context is not cancelled while a script is unfinished: "scripts that finish
+   earlier are unaffected by the deadline". *)
+Theorem C17_context_lives_while_scripts_run : forall cfg progs sched,
+  precancel_guarded cfg = early_cleanup_only_without_scripts -> progs <> [] ->
+  let st := run cfg progs (start cfg progs) sched in
+  all_done st = false -> cancelled (sh st) = false.
+Proof. exact context_lives_while_scripts_run. Qed.
+Print Assumptions C17_context_lives_while_scripts_run.
+
+(* With a cancel() that RunT runs under some retention setting although there are scripts, it is false. *)
+Theorem C17_precancel_refuted :
+  exists cfg progs, precancel_guarded cfg = false /\ has_cancel cfg = true /\ retain cfg = true /\ progs <> [] /\
+    all_done (start cfg progs) = false /\ cancelled (sh (start cfg progs)) = true.
+Proof. exact precancel_refuted. Qed.
+Print Assumptions C17_precancel_refuted.
